@@ -3,6 +3,7 @@ package main
 import (
 	"encoding/json"
 	"fmt"
+	"go/token"
 	"go/types"
 	"os"
 	"os/exec"
@@ -40,6 +41,7 @@ type Tables struct {
 	PoolEvents  map[string]string
 	PoolEntry   map[string]string
 	PoolInitial string
+	FromDumpErr map[string]string
 }
 
 func (P *Prog) tables() (*Tables, error) {
@@ -274,4 +276,84 @@ func (vc *VC) machOfTerm(f, name string, st *State) (string, types.Type, error) 
 	_, _, cvn, cvs := vc.mapHeaps(cbMap)
 	vc.pre.declFun("fv_recv", "(Int) Int")
 	return fmt.Sprintf("(fv_recv (select (select %s %s) %s))", vc.getH(st, cvn, cvs), C, vc.pre.strLit(evs[0])), mt, nil
+}
+
+// EvalTablesClause decides statements about the transition tables and the pool maps, which are produced by
+// running the real constructors. One obligation per state, so that findings are identified by the state.
+//
+//	tables[Cxx.load] loadable   every state that is a source or destination of a transition in some machine
+//	                            has a machine in the pool (fsm_pool.MachineByState succeeds, so FromDump can load it)
+func (P *Prog) EvalTablesClause(c *Clause, unit string) ([]*Obligation, error) {
+	tb, err := P.tables()
+	if err != nil {
+		return nil, err
+	}
+	what := strings.TrimSpace(c.Text)
+	if what != "loadable" {
+		return nil, fmt.Errorf("%s:%d: unknown tables statement %q", c.File, c.Line, what)
+	}
+	states := map[string]string{}
+	for _, m := range tb.Machines {
+		for _, t := range m.Transitions {
+			if _, ok := states[t.Source]; !ok {
+				states[t.Source] = fmt.Sprintf("source of event %s in machine %s", t.Event, m.Name)
+			}
+			if _, ok := states[t.Dst]; !ok {
+				states[t.Dst] = fmt.Sprintf("destination of event %s in machine %s", t.Event, m.Name)
+			}
+		}
+	}
+	var names []string
+	for s := range states {
+		names = append(names, s)
+	}
+	sort.Strings(names)
+	label := strings.Join(c.Labels, ",")
+	var out []*Obligation
+	for _, s := range names {
+		if s == "__done" {
+			continue // the engine's reserved finish marker is never a round's state in these machines
+		}
+		o := &Obligation{Func: unit, Name: "[" + label + ":" + s + "]", Kind: "ground", Detail: "state " + s + " (" + states[s] + ") has a machine in the pool", Clause: c, Goal: "true", Guard: "true",
+			Solver: "table-eval", Result: "unsat", Site: token.Position{Filename: c.File, Line: c.Line}}
+		_, inPool := tb.PoolStates[s]
+		if e := tb.FromDumpErr[s]; inPool && e != "" {
+			o.Result = "sat"
+			o.Model = fmt.Sprintf("state_machines.FromDump of a minimal dump in state %q fails: %s", s, e)
+		}
+		if !inPool {
+			o.Result = "sat"
+			o.Model = fmt.Sprintf("state %q is reachable (%s) but fsm_pool.Init registers no machine for it: MachineByState(%q) fails, so a round saved in this state cannot be restored", s, states[s], s)
+		}
+		if o.Result == "sat" {
+			o.Replay = &ReplaySpec{PkgPath: modulePath + "/fsm/state_machines", TestName: "TestGocvReplayLoadable", What: "a dump whose State is " + s,
+				Source: fmt.Sprintf(`package state_machines
+
+import (
+	"testing"
+
+	"github.com/lidofinance/dc4bc/fsm/fsm"
+	"github.com/lidofinance/dc4bc/fsm/state_machines/internal"
+)
+
+// generated by gocv: a round persisted in state %q must be loadable
+func TestGocvReplayLoadable(t *testing.T) {
+	d := &FSMDump{TransactionId: "round", State: fsm.State(%q), Payload: &internal.DumpedMachineStatePayload{DkgId: "round"}}
+	bz, err := d.Marshal()
+	if err != nil {
+		t.Fatalf("marshal: %%v", err)
+	}
+	inst, err := FromDump(bz)
+	if err != nil {
+		t.Fatalf("FromDump of a round in state %%q: %%v", d.State, err)
+	}
+	if st, err := inst.State(); err != nil || st != d.State {
+		t.Fatalf("restored round reports state %%q (%%v), saved %%q", st, err, d.State)
+	}
+}
+`, s, s)}
+		}
+		out = append(out, o)
+	}
+	return out, nil
 }
